@@ -183,7 +183,7 @@ pub fn run(tier: Tier) -> i32 {
     // foreign / damaged magic
     for (name, img) in images.iter().take(2) {
         for pos in 0..MAGIC.len() {
-            for rep_byte in [0u8, b'X', img[pos].wrapping_add(1), 0xFF] {
+            for rep_byte in 0u8..=255 {
                 if rep_byte == img[pos] {
                     continue;
                 }
@@ -200,6 +200,43 @@ pub fn run(tier: Tier) -> i32 {
                         replay: json!({"kind": "image_magic", "image_of": name, "pos": pos, "byte": rep_byte}),
                     });
                 }
+            }
+        }
+        // one byte deleted, one byte inserted, two neighbours exchanged
+        let mut edited: Vec<(String, Vec<u8>)> = vec![];
+        for pos in 0..MAGIC.len() {
+            let mut h = MAGIC.to_vec();
+            h.remove(pos);
+            edited.push((format!("magic with byte {pos} deleted"), h));
+            if pos + 1 < MAGIC.len() && MAGIC[pos] != MAGIC[pos + 1] {
+                let mut h = MAGIC.to_vec();
+                h.swap(pos, pos + 1);
+                edited.push((format!("magic with bytes {pos},{} exchanged", pos + 1), h));
+            }
+        }
+        for pos in 0..=MAGIC.len() {
+            for ins in [b' ', b'\n', b'\t', b'\r', 0u8, b'0', b'V'] {
+                let mut h = MAGIC.to_vec();
+                h.insert(pos, ins);
+                if h.starts_with(MAGIC) {
+                    continue; // still starts with the magic: outside the statement
+                }
+                edited.push((format!("magic with {ins:#x} inserted at {pos}"), h));
+            }
+        }
+        for (label, hdr) in &edited {
+            st.states += 1;
+            st.transitions += 1;
+            st.count("magic_edits");
+            let mut v = hdr.clone();
+            v.extend_from_slice(&img[MAGIC.len()..]);
+            let c = read_class(&v, 0);
+            if c != "Err" {
+                st.violation(Finding {
+                    class: format!("foreign-header-{c}"),
+                    what: format!("image of {name} with header '{label}': expected Err, got {c}"),
+                    replay: json!({"kind": "image_magic", "image_of": name, "header_bytes": hdr}),
+                });
             }
         }
         for (label, hdr) in [
@@ -224,7 +261,7 @@ pub fn run(tier: Tier) -> i32 {
             }
         }
     }
-    rep.rule = "state = (image of one of 6 dictionaries: matrix/raw/dual, plain and with user lexicon + stored mapper; reader behaviour: whole slice, 1-byte and 7-byte short reads; prefix length k) for EVERY k in 0..len; plus every single-byte substitution of the magic with 4 replacement bytes and 5 foreign headers (streams that do start with the current magic are outside the statement); oracle: Err, no panic. A Write sink can only append, so a write interrupted at offset k leaves exactly the prefix k. distinct = distinct (image, reader, region, outcome)".into();
+    rep.rule = "state = (image of one of 6 dictionaries: matrix/raw/dual, plain and with user lexicon + stored mapper; reader behaviour: whole slice, 1-byte and 7-byte short reads; prefix length k) for EVERY k in 0..len; plus every single-byte substitution of the magic (all 255 other values at each of the 21 positions), every one-byte deletion, neighbour exchange and 7 one-byte insertions at every position, and 5 foreign headers (streams that do start with the current magic are outside the statement); oracle: Err, no panic. A Write sink can only append, so a write interrupted at offset k leaves exactly the prefix k. distinct = distinct (image, reader, region, outcome)".into();
     rep.bounds = json!({"images": images.iter().map(|(n, b)| json!({"name": n, "len": b.len()})).collect::<Vec<_>>(), "reader_modes": tier.pick("slice on all images, 1-byte reads on 2", "slice, 1-byte, 7-byte on all")});
-    rep.finish(st, &["prefixes_inside_magic", "prefixes_inside_body", "prefixes_in_last_300_bytes", "magic_single_byte_substitutions", "foreign_headers"])
+    rep.finish(st, &["prefixes_inside_magic", "prefixes_inside_body", "prefixes_in_last_300_bytes", "magic_single_byte_substitutions", "magic_edits", "foreign_headers"])
 }
